@@ -95,6 +95,8 @@ pub struct Merged {
     pub counters: BTreeMap<String, u64>,
     pub samples: Vec<J>,
     pub infos: BTreeMap<String, String>,
+    /// cases (JSON) whose search could not even be stopped: the worker gave up on them
+    pub hung: Vec<String>,
 }
 
 impl Merged {
@@ -143,9 +145,11 @@ pub fn fan_out(id: &str, tier: &str, sink: &Sink, extra: &[String]) -> Result<Me
         counters: BTreeMap::new(),
         samples: vec![],
         infos: BTreeMap::new(),
+        hung: vec![],
     };
     let mut errors = vec![];
     for (k, mut child, out) in kids {
+        let pid = child.id();
         let status = child.wait().map_err(|e| e.to_string())?;
         let text = std::fs::read_to_string(&out).unwrap_or_default();
         let mut done = false;
@@ -180,11 +184,25 @@ pub fn fan_out(id: &str, tier: &str, sink: &Sink, extra: &[String]) -> Result<Me
                 done = true;
             }
         }
+        if status.code() == Some(3) {
+            // the worker's watchdog gave up: a search ignored its limits AND the stop flag for 20 s
+            let side = super::report::verif_root().join(".work").join("overrun").join(format!("{pid}.json"));
+            if let Ok(text) = std::fs::read_to_string(&side) {
+                let _ = std::fs::remove_file(&side);
+                merged.hung.push(text);
+                continue;
+            }
+        }
         if !status.success() || !done {
             let errtxt = std::fs::read_to_string(dir.join(format!("shard{k}.err"))).unwrap_or_default();
             let tail: Vec<&str> = errtxt.lines().rev().take(6).collect();
             errors.push(format!("worker {k} of {id} did not finish (status {status}): {}", tail.into_iter().rev().collect::<Vec<_>>().join(" | ")));
         }
+    }
+    if id != "C09" && !merged.hung.is_empty() {
+        // only C09 judges "the search never answers"; for every other check a worker that had to
+        // give up is a machinery error
+        errors.push(format!("{} worker(s) of {id} gave up on a search that ignored the stop flag: {}", merged.hung.len(), merged.hung[0]));
     }
     if errors.is_empty() {
         Ok(merged)
